@@ -83,6 +83,7 @@ AxisRange(x) ==
     LET d == Len(x.I) IN
     \/ \E a \in {d, d + 3} : C("sum", "axis", x, [axes |-> <<a>>], TRUE, TRUE)               \* 0-based, out of range
     \/ d >= 2 /\ C("sum", "axis", x, [axes |-> <<0, d>>], TRUE, TRUE)
+    \/ x.k = "tt" /\ \E a \in {d, d + 2, -1} : C("cat", "axis", x, [y |-> Second(x), ax |-> a], TRUE, TRUE)   \* concatenation axis out of range
     \/ C("set_core", "axis", x, [p |-> d], TRUE, TRUE)
     \/ C("set_core", "axis", x, [p |-> -1], TRUE, TRUE)
     \* a negative position with a core that would fit "from the end" (the last core's shape) or that fits the boundary
